@@ -224,6 +224,9 @@ class MinFlowDecomp(pathmodel.AbstractPathModelDAG): # Note that we inherit from
             This overloads the `solve()` method from `AbstractPathModelDAG` class.
         """
         self.solve_time_start = time.perf_counter()
+        # A (re-)solve starts from scratch: whatever an earlier solve() of this object found is no longer the answer of this run
+        self._is_solved = False
+        self._solution = None
 
         if self.optimization_options.get("optimize_with_guessed_weights", MinFlowDecomp.optimize_with_given_weights):            
             self._solve_with_given_weights()
